@@ -13,11 +13,13 @@ import (
 	"bytes"
 	"context"
 	"encoding/json"
+	"errors"
 	"fmt"
 	"os"
 	"path/filepath"
 	"sort"
 	"strings"
+	"time"
 
 	"github.com/nspcc-dev/neo-go/pkg/core/dao"
 	istorage "github.com/nspcc-dev/neo-go/pkg/core/interop/storage"
@@ -67,7 +69,13 @@ type c09KV struct{ K, V []byte }
 
 // ---- the real stack ----
 
+// c09Fwd forwards to a store that can be replaced (the LevelDB handle after a close + reopen)
+type c09Fwd struct{ storage.Store }
+
 type c09Stack struct {
+	ldb     *storage.LevelDBStore // the LevelDB handle behind base (nil for the other backends)
+	ldbPath string
+	fwd     *c09Fwd
 	base   storage.Store
 	layers []*storage.MemCachedStore // bottom first
 	privs  []bool
@@ -83,8 +91,11 @@ var c09PerBackend = map[string]int{}
 
 func c09NewStack(backend, dir string, seq int) (*c09Stack, error) {
 	var (
-		base storage.Store
-		err  error
+		base    storage.Store
+		err     error
+		ldb     *storage.LevelDBStore
+		fwd     *c09Fwd
+		ldbPath string
 	)
 	switch backend {
 	case "mem":
@@ -92,14 +103,19 @@ func c09NewStack(backend, dir string, seq int) (*c09Stack, error) {
 	case "bolt":
 		base, err = storage.NewBoltDBStore(dbconfig.BoltDBOptions{FilePath: filepath.Join(dir, fmt.Sprintf("b%d.bolt", seq))})
 	case "level":
-		base, err = storage.NewLevelDBStore(dbconfig.LevelDBOptions{DataDirectoryPath: filepath.Join(dir, fmt.Sprintf("l%d", seq))})
+		path := filepath.Join(dir, fmt.Sprintf("l%d", seq))
+		ldb, err = storage.NewLevelDBStore(dbconfig.LevelDBOptions{DataDirectoryPath: path})
+		if err == nil {
+			fwd = &c09Fwd{Store: ldb}
+			base, ldbPath = fwd, path
+		}
 	default:
 		err = fmt.Errorf("unknown backend %q", backend)
 	}
 	if err != nil {
 		return nil, err
 	}
-	s := &c09Stack{base: base, shBase: map[string][]byte{}}
+	s := &c09Stack{base: base, shBase: map[string][]byte{}, ldb: ldb, ldbPath: ldbPath, fwd: fwd}
 	s.layers = []*storage.MemCachedStore{storage.NewMemCachedStore(base)}
 	s.privs = []bool{false}
 	s.sh = []map[string][]byte{{}}
@@ -117,6 +133,56 @@ func (s *c09Stack) close(dir, backend string, seq int) {
 }
 
 func (s *c09Stack) top() *storage.MemCachedStore { return s.layers[len(s.layers)-1] }
+
+// settle makes the state of a LevelDB backend independent of the timing of goleveldb's background compaction: after a
+// write to the base it waits (polling observable conditions, bounded) until no level-0 compaction is pending and the
+// table files the compaction made obsolete are gone from the directory. What the database does from such a state on is
+// deterministic — including finding F51, which needs exactly this state.
+func (s *c09Stack) settle() error {
+	if s.ldb == nil {
+		return nil
+	}
+	// read every table once: whether a table is in goleveldb's table cache is part of the state F51 depends on, and with
+	// all of them cached the behaviour is the same whether or not observations were made in between (replayability)
+	s.ldb.Seek(storage.SeekRange{Prefix: []byte{}}, func(_, _ []byte) bool { return true })
+	deadline := time.Now().Add(30 * time.Second)
+	for {
+		l0, _ := s.ldb.VerifProperty("leveldb.num-files-at-level0")
+		live := 0
+		for l := 0; l < 7; l++ {
+			q, _ := s.ldb.VerifProperty(fmt.Sprintf("leveldb.num-files-at-level%d", l))
+			var n int
+			fmt.Sscan(q, &n)
+			live += n
+		}
+		var n0 int
+		fmt.Sscan(l0, &n0)
+		onDisk, _ := filepath.Glob(filepath.Join(s.ldbPath, "*.ldb"))
+		if n0 < 4 && len(onDisk) == live {
+			return nil
+		}
+		if time.Now().After(deadline) {
+			return errors.New("LevelDB background compaction did not settle within 30 s")
+		}
+		time.Sleep(50 * time.Microsecond) // polling interval only
+	}
+}
+
+// reopen closes the LevelDB handle and opens the same directory again (the layers keep pointing at the forwarder)
+func (s *c09Stack) reopen() error {
+	if s.ldb == nil {
+		return nil
+	}
+	if err := s.ldb.Close(); err != nil {
+		return err
+	}
+	ldb, err := storage.NewLevelDBStore(dbconfig.LevelDBOptions{DataDirectoryPath: s.ldbPath})
+	if err != nil {
+		return err
+	}
+	s.ldb, s.fwd.Store = ldb, ldb
+	return nil
+}
 
 // shadowWriteBelow mirrors PutChangeSet of layer idx's map into whatever is below it.
 func (s *c09Stack) shadowWriteBelow(idx int) {
@@ -186,6 +252,9 @@ func (s *c09Stack) apply(o c09Op) error {
 		}
 		s.shadowWriteBelow(idx)
 		s.sh[idx] = map[string][]byte{}
+		if idx == 0 {
+			return s.settle()
+		}
 	case "persistprivate":
 		if n < 2 || !s.privs[n-1] {
 			return nil
@@ -222,6 +291,9 @@ func (s *c09Stack) apply(o c09Op) error {
 		)
 		if o.T == "gcbase" {
 			err, sh = s.base.SeekGC(rng, cb), s.shBase
+			if err == nil {
+				err = s.settle()
+			}
 		} else {
 			err, sh = s.top().SeekGC(rng, cb), s.sh[n-1]
 		}
@@ -600,6 +672,17 @@ func c09Observe(co *caseOut, s *c09Stack, in c09Input, kind string) {
 			}
 		}
 		impl := map[string]any{"found": found, "value": hx(v)}
+		if ev, eok := s.flatDepth(0)[string(k)]; eok != found || (found && !bytes.Equal(ev, v)) {
+			impl["diag"] = []string{"other"}
+			if s.ldb != nil { // does the deviation heal when the LevelDB handle is reopened? (finding F51)
+				if err := s.reopen(); err == nil {
+					v2, err2 := s.top().Get(k)
+					if (err2 == nil) == eok && (!eok || bytes.Equal(ev, v2)) {
+						impl["diag"] = []string{"leveldb-invisible-until-reopen"}
+					}
+				}
+			}
+		}
 		c09PerBackend[in.Backend]++
 		co.add(kind, level, level != "absent", in, impl,
 			fmt.Sprintf("CGet %d %s %s %s", bk, c09CoqOps(in.Ops), coqBytes(k), coqOpt(coqBytes(v), found)))
@@ -621,6 +704,13 @@ func c09Observe(co *caseOut, s *c09Stack, in c09Input, kind string) {
 				if p0 == "" && len(res0) >= len(res) && c09SameKVs(res0[:len(res)], res) && (len(res) == q.Lim || len(res) == len(res0)) {
 					if d0 := c09Diag(s, q0, res0); d0 != nil {
 						d = d0
+					}
+				}
+			}
+			if s.ldb != nil { // does the deviation heal when the LevelDB handle is reopened? (finding F51)
+				if err := s.reopen(); err == nil {
+					if res2, p2 := c09Seek(s, q); p2 == "" && c09Diag(s, q, res2) == nil {
+						d = []string{"leveldb-invisible-until-reopen"}
 					}
 				}
 			}
@@ -980,6 +1070,18 @@ func runC09(args []string) error {
 			if err := json.Unmarshal(c, &x); err != nil {
 				return err
 			}
+			if x.Kind == "sched2" {
+				var y struct {
+					Input c09SInput `json:"input"`
+				}
+				if err := json.Unmarshal(c, &y); err != nil {
+					return err
+				}
+				if err := c09RunSched2(co, y.Input, dir, i); err != nil {
+					return err
+				}
+				continue
+			}
 			if x.Kind == "lock" {
 				var y struct {
 					Input c09LInput `json:"input"`
@@ -1076,6 +1178,13 @@ func runC09(args []string) error {
 		in.Backend = backends[i%3]
 		if err := c09RunLock(co, in, dir, 5*cf.n+i); err != nil {
 			return fmt.Errorf("lock schedule %d: %w", i, err)
+		}
+	}
+	// two shared layers: Persist of the middle layer around a three-step reader, any SearchDepth
+	for i := 0; i < 2*cf.n; i++ {
+		ops, q := c09GenSched2(r)
+		if err := c09RunSched2(co, c09SInput{Backend: backends[i%3], Ops: ops, Q: q}, dir, 9*cf.n+i); err != nil {
+			return fmt.Errorf("two-layer schedule %d: %w", i, err)
 		}
 	}
 	co.extra["x_backends"] = c09PerBackend
